@@ -1,6 +1,7 @@
 SPECIFICATION JSpec
 CONSTANTS
-  Modified = {1, 2, 3}
+  Modified = {1, 2}
+  Appended = {3, 4}
   Mode = "DELETE"
   NoSync = FALSE
 INVARIANT NeverReadsUnfinished
